@@ -23,6 +23,7 @@ META = dict(
     technique="AST-to-algebra identity across sibling sites + decision tables + ordering (dominance) rule",
 )
 META["text"] += ' (R6 = C02.R2) the plurality and super-majority assorters take values in [0, declared upper_bound], and the three places stating the super-majority bound agree.'
+META["text"] += ' (R7, N) Assorter and Assertion constructors store contest, upper_bound, assorter, margin and test unconditionally from the parameters of the same name.'
 
 SPEC_U = '''
 def spec(at, v, ua):
@@ -80,6 +81,9 @@ def run(chk):
     from . import c02
     chk.borrow(c02.r1_r2_plurality, {"C02.R2": "C06.R6"})
     chk.borrow(c02.r3_supermajority, {"C02.R2": "C06.R6"})
+    # R7: the bound and the test that the rules above read off an assertion / assorter are the ones it was built with
+    aud.ctor_fields(chk, "C06.R7", REL, "Assorter", ["contest", "upper_bound", "tally_pool_means"], "the declared bound is obj.upper_bound")
+    aud.ctor_fields(chk, "C06.R7", REL, "Assertion", ["contest", "assorter", "margin", "test"], "u is installed in obj.test, data come from obj.assorter")
 
 
 def r1(chk):
